@@ -5,6 +5,7 @@ import (
 	"fmt"
 	"io"
 	"math/big"
+	"strings"
 	"time"
 	"unsafe"
 
@@ -15,6 +16,7 @@ import (
 	"pgregory.net/rapid"
 
 	"verif/internal/gen"
+	"verif/internal/harness"
 )
 
 // C07 — no input makes a public entry point panic, hang or crash: for every byte string and every
@@ -72,6 +74,19 @@ type c07SelfContainers struct {
 	Kids []c07SelfContainers
 	M    map[string]c07SelfContainers
 	F    func()
+}
+
+// an untyped slot followed by scalar slots: a value built in the first can be referenced from the others
+type c07IfaceThenScalars struct {
+	A interface{}
+	B int
+	C uint8
+	D float32
+	E string
+	F []interface{}
+	G bool
+	H *big.Int
+	I time.Time
 }
 
 type c07Unexported struct {
@@ -152,6 +167,8 @@ var c07Templates = map[string]func() interface{}{
 	"struct{}":      func() interface{} { return struct{}{} },
 	"*chan":         func() interface{} { c := make(chan int); return &c },
 	// self-referential, valid and with unsupported members
+	"iface-then-scalars":   func() interface{} { return c07IfaceThenScalars{} },
+	"*iface-then-scalars":  func() interface{} { return &c07IfaceThenScalars{} },
 	"list":                 func() interface{} { return c07List{} },
 	"*list":                func() interface{} { return &c07List{} },
 	"self-chan":            func() interface{} { return c07SelfChanAfter{} },
@@ -275,7 +292,9 @@ func c07GenDoc(t *rapid.T, ctx *Ctx) (doc []byte, note string) {
 		}
 		return d, isCBE
 	}
-	switch rapid.IntRange(0, 13).Draw(t, "dockind") {
+	switch rapid.IntRange(0, 15).Draw(t, "dockind") {
+	case 14, 15:
+		return c07ShapedDoc(t, cfg), "shaped"
 	case 0:
 		return []byte{}, "empty"
 	case 1:
@@ -320,6 +339,114 @@ func c07GenDoc(t *rapid.T, ctx *Ctx) (doc []byte, note string) {
 	}
 }
 
+// c07ShapedDoc draws a document shaped like the typed templates (a map keyed by their field names, or
+// a list) whose value slots hold anything: scalars of every kind, containers, marked values that
+// contain a reference to themselves, and references (backward and forward) put where a template wants
+// a scalar. This is how the builders' conversion-error paths meet cyclic values.
+func c07ShapedDoc(t *rapid.T, cfg *configuration.Configuration) []byte {
+	nmark := 0
+	var val func(depth int) string
+	scalar := func() string {
+		return rapid.SampledFrom([]string{"1", "-5", "300", "1.5", "\"s\"", "true", "null", "@\"u\"", "2020-01-01", "0x1p3", "-0", "nan",
+			"18446744073709551616", "f81d4fae-7dec-11d0-a765-00a0c91e6bf6", "@u8x[01 02]", "\"\""}).Draw(t, "scalar")
+	}
+	ref := func() string { return fmt.Sprintf("$m%d", rapid.IntRange(0, nmark+1).Draw(t, "refid")) }
+	val = func(depth int) string {
+		k := rapid.IntRange(0, 9).Draw(t, "vk")
+		if depth >= 3 && k >= 4 && k <= 7 {
+			k = 0
+		}
+		switch k {
+		case 0, 1, 2, 3:
+			return scalar()
+		case 4:
+			n := rapid.IntRange(0, 3).Draw(t, "ln")
+			parts := []string{}
+			for i := 0; i < n; i++ {
+				parts = append(parts, val(depth+1))
+			}
+			return "[" + strings.Join(parts, " ") + "]"
+		case 5:
+			n := rapid.IntRange(0, 2).Draw(t, "mn")
+			parts := []string{}
+			for i := 0; i < n; i++ {
+				parts = append(parts, fmt.Sprintf("\"k%d\" = %s", i, val(depth+1)))
+			}
+			return "{" + strings.Join(parts, " ") + "}"
+		case 6, 7:
+			id := nmark
+			nmark++
+			switch rapid.IntRange(0, 3).Draw(t, "mk") {
+			case 0:
+				return fmt.Sprintf("&m%d:%s", id, scalar())
+			case 1:
+				return fmt.Sprintf("&m%d:[$m%d %s]", id, id, val(depth+1)) // contains itself
+			case 2:
+				return fmt.Sprintf("&m%d:{\"self\" = $m%d \"x\" = %s}", id, id, val(depth+1))
+			default:
+				return fmt.Sprintf("&m%d:[%s]", id, val(depth+1))
+			}
+		default:
+			return ref()
+		}
+	}
+	var sb strings.Builder
+	sb.WriteString("c0\n")
+	if rapid.IntRange(0, 3).Draw(t, "refshape") == 0 {
+		// the first slot ("a": untyped in c07IfaceThenScalars) holds a marked value, the other slots refer to it
+		nmark = 1
+		first := "&m0:" + scalar()
+		switch rapid.IntRange(0, 3).Draw(t, "firstkind") {
+		case 0:
+			first = "&m0:[$m0 " + val(1) + "]"
+		case 1:
+			first = "&m0:{\"self\" = $m0}"
+		case 2:
+			first = "&m0:[" + val(1) + "]"
+		}
+		sb.WriteString("{\"a\" = " + first)
+		for _, key := range []string{"b", "c", "d", "e", "f", "g", "h", "i"} {
+			switch rapid.IntRange(0, 3).Draw(t, "slot") {
+			case 0:
+				sb.WriteString(fmt.Sprintf(" \"%s\" = $m0", key))
+			case 1:
+				sb.WriteString(fmt.Sprintf(" \"%s\" = %s", key, val(1)))
+			}
+		}
+		sb.WriteString("}")
+	} else if rapid.IntRange(0, 3).Draw(t, "toplist") == 0 {
+		sb.WriteString("[")
+		for i, n := 0, rapid.IntRange(1, 4).Draw(t, "tn"); i < n; i++ {
+			sb.WriteString(val(0) + " ")
+		}
+		sb.WriteString("]")
+	} else {
+		sb.WriteString("{")
+		for i, n := 0, rapid.IntRange(1, 5).Draw(t, "kn"); i < n; i++ {
+			key := rapid.SampledFrom([]string{"a", "b", "c", "d", "e", "f", "g", "h", "i", "A", "E", "x", "v", "next", "ch", "kids", "m", "emb_int"}).Draw(t, "key")
+			sb.WriteString(fmt.Sprintf("\"%s\" = %s ", key, val(0)))
+		}
+		sb.WriteString("}")
+	}
+	doc := []byte(sb.String())
+	if rapid.Bool().Draw(t, "shaped.cbe") {
+		// the same document in CBE (converted without the validator: forward references, duplicates and unknown markers stay)
+		var out bytes.Buffer
+		enc := ce.NewCBEEncoder(cfg)
+		enc.PrepareToEncode(&out)
+		failed := false
+		o := harness.Call(func() {
+			if err := ce.NewCTEDecoder(cfg).DecodeDocument(doc, enc); err != nil {
+				failed = true
+			}
+		})
+		if !failed && o.Panic == nil && out.Len() > 2 {
+			return out.Bytes()
+		}
+	}
+	return doc
+}
+
 func genC07(t *rapid.T, ctx *Ctx) interface{} {
 	if rapid.IntRange(0, 4).Draw(t, "side") == 0 {
 		c := &C07Case{Op: "marshal", Entry: rapid.SampledFrom(c07MarshalEntries).Draw(t, "mentry"), Rules: rapid.Bool().Draw(t, "rules")}
@@ -339,6 +466,11 @@ func genC07(t *rapid.T, ctx *Ctx) interface{} {
 		c.Tmpl = rapid.SampledFrom(c07TemplateNames).Draw(t, "template")
 	}
 	c.Doc, c.Note = c07GenDoc(t, ctx)
+	if c.Note == "shaped" && rapid.IntRange(0, 4).Draw(t, "shaped.tmpl") > 0 {
+		c.Tmpl = rapid.SampledFrom([]string{"struct", "*struct", "iface-slice-of-struct", "list", "*list", "map[string]int", "map[int]string", "[]int", "[]string",
+			"[4]int", "embeds-ptr", "embeds-iface", "nil", "[]interface", "map[iface]", "self-chan", "[]*int",
+			"iface-then-scalars", "iface-then-scalars", "iface-then-scalars", "*iface-then-scalars", "*iface-then-scalars"}).Draw(t, "shaped.template")
+	}
 	return c
 }
 
